@@ -81,3 +81,42 @@ func VerifC04_Gradient2_ZeroRTT() {
 	verif.Assert("gradient2-zero-rtt-in-range", after >= 20 && after <= 200)
 	verif.Reach("end")
 }
+
+// VerifC04_Gradient2_ConstructorEstablishesBounds: the step harness above starts from a state with
+// 1 <= min <= max; this one shows every construction establishes it.  All constructor arguments are
+// arbitrary (non-positive ones stand for the documented defaults max 1000, min 4, initial 4; an
+// out-of-range smoothing for 0.2): the constructor either rejects the configuration - exactly when
+// the effective minimum exceeds the effective maximum - or returns a limit whose fields are the
+// effective values, so that the clamp max(min, min(max, x)) in OnSample keeps x in [min, max].
+//
+//verif:harness property=C04 theory=bv tier=quick
+func VerifC04_Gradient2_ConstructorEstablishesBounds() {
+	initial := verif.Int("initial")
+	minL := verif.Int("min")
+	maxC := verif.Int("max")
+	verif.Assume(initial > -(1<<31) && initial < 1<<31 && minL > -(1<<31) && minL < 1<<31 && maxC > -(1<<31) && maxC < 1<<31)
+	other := verif.Choice("smoothing+longWindow", 5)
+	smoothing := []float64{0.2, 1.0, 0.0, -0.5, 1.5}[other]
+	window := []int{600, 100, 0, -1, 10}[other]
+	effMax, effMin, effInit := maxC, minL, initial
+	if maxC <= 0 {
+		effMax = 1000
+	}
+	if minL <= 0 {
+		effMin = 4
+	}
+	if initial <= 0 {
+		effInit = 4
+	}
+	l, err := NewGradient2Limit("g2", initial, maxC, minL, nil, smoothing, window, nil, nil)
+	verif.Assert("gradient2-rejects-iff-min-exceeds-max", (err != nil) == (effMin > effMax))
+	if err != nil {
+		verif.Assert("gradient2-rejected-returns-nil", l == nil)
+		verif.Reach("rejected")
+		return
+	}
+	verif.Assert("gradient2-constructed-bounds-ordered", l.minLimit >= 1 && l.minLimit <= l.maxLimit)
+	verif.Assert("gradient2-constructed-effective-values", l.minLimit == effMin && l.maxLimit == effMax && l.estimatedLimit == float64(effInit) && l.EstimatedLimit() == effInit)
+	verif.Assert("gradient2-constructed-smoothing-in-range", l.smoothing >= 0 && l.smoothing <= 1)
+	verif.Reach("constructed")
+}
